@@ -63,6 +63,18 @@ class PDict:
         return f"PDict({self.d})"
 
 
+class KDict:
+    """dict whose keys are symbolic objects (e.g. Index): insertion ordered
+    list of (key, value); keys are pairwise distinct on the current path
+    (decided when a key is inserted)."""
+
+    def __init__(self, pairs=None):
+        self.pairs = list(pairs or [])
+
+    def __repr__(self):
+        return f"KDict({self.pairs})"
+
+
 class PSet:
     def __init__(self, items=None):
         self.items = []
